@@ -520,6 +520,7 @@ func init() {
 		"k8s.io/apimachinery/pkg/util/runtime.HandleError",
 		"k8s.io/apimachinery/pkg/util/runtime.HandleCrash",
 		"time.Sleep",
+		"runtime.SetFinalizer", "runtime.KeepAlive",
 	} {
 		externals[n] = nop
 	}
@@ -539,6 +540,14 @@ func init() {
 		// fixed instant; harnesses that care inject their own clock
 		return timeValue(time.Unix(1700000000, 0).UTC())
 	}
+	externals["time.NewTicker"] = func(fr *frame, args []value) value {
+		t := namedType(fr.i.prog, "time", "Ticker")
+		st := zero(t).(structure)
+		st[0] = make(chan value, 1) // never fires
+		return mkPtr(st)
+	}
+	externals["(*time.Ticker).Stop"] = func(fr *frame, args []value) value { return nil }
+	externals["(*time.Ticker).Reset"] = func(fr *frame, args []value) value { return nil }
 	externals["math.Ceil"] = func(fr *frame, args []value) value { return math.Ceil(args[0].(float64)) }
 	externals["math.Floor"] = func(fr *frame, args []value) value { return math.Floor(args[0].(float64)) }
 	externals["time.Parse"] = func(fr *frame, args []value) value {
